@@ -38,6 +38,17 @@ def run(ctx):
     clause_c(ctx, fx, U)
     clause_d(ctx, fx)
     clause_e(ctx, fx)
+    clause_f(ctx, fx)
+
+
+def clause_f(ctx, fx):
+    """'…the holder's presentation for any selection…': the selection walkers pair each selector with the element it addresses
+    (claims and selection walked in lock step through every recursive call) — shared with C06.H2"""
+    import hmodel
+    import c06
+    H = hmodel.Holder(ctx, fx, "C01.f")
+    if H.ok:
+        c06.role_preserving(ctx, fx, H, "C01.f")
 
 
 def clause_a(ctx, fx, U):
